@@ -170,19 +170,24 @@ def deqFields (env : DeqEnv) (chld : List Node) (path : String) (ls rs : List Va
     match chld, rs with
     | ch :: chs, r :: rs' =>
       let here : DeqR :=
-        if ch.isLeaf && ch.ptr && env.cfg.deqPtrLeafNilUnchecked then
-          (match l with
-           | .ptr lw =>
-             (match r with
-              | .ptr rw => deqV env ch true true (deqPath path ch false) lw rw
-              | _ => .panic)
-           | _ => .panic)
+        if ch.isLeaf && ch.ptr && env.cfg.deqPtrLeafNilUnchecked then deqLeafDeref env ch path l r
         else deqN env ch true false path l r
       (match here with
        | .cont => deqFields env chs path ls' rs'
        | x => x)
     | _, _ => .panic
 termination_by structural ls
+
+/-- What is emitted for a pointer-to-leaf struct field under `deqPtrLeafNilUnchecked`: both sides are
+dereferenced without a nil test of their own (split out of `deqFields` so that its unfolding lemma can be stated). -/
+def deqLeafDeref (env : DeqEnv) (ch : Node) (path : String) (l r : Val) : DeqR :=
+  match l with
+  | .ptr lw =>
+    (match r with
+     | .ptr rw => deqV env ch true true (deqPath path ch false) lw rw
+     | _ => .panic)
+  | _ => .panic
+termination_by structural l
 
 /-- `for k := range l { lx := l[k]; rx, ok := r[k]; if !ok { return false }; … }`. -/
 def deqMapVals (env : DeqEnv) (mk mv : Node) (path : String) (lks lvs rks rvs : List Val) : DeqR :=
